@@ -96,7 +96,9 @@ pub fn effective(prob: &Prob, infbound: f64, presolve: bool) -> Effective {
     let mut n_dropped = 0;
     for c in &prob.cones {
         let d = c.dim();
-        if presolve && matches!(c, ConeSpec::Nonneg(_)) {
+        // a singleton second-order cone *is* the nonnegative half-line (and the solver
+        // consolidates it into a nonnegative cone)
+        if presolve && matches!(c, ConeSpec::Nonneg(_) | ConeSpec::Soc(1)) {
             for k in 0..d {
                 if prob.b[row + k] > thr {
                     keep[row + k] = false;
@@ -121,7 +123,7 @@ pub fn hand_reduce(prob: &Prob, eff: &Effective) -> Prob {
     for c in &prob.cones {
         let d = c.dim();
         match c {
-            ConeSpec::Nonneg(_) => {
+            ConeSpec::Nonneg(_) | ConeSpec::Soc(1) => {
                 let k = (0..d).filter(|i| eff.keep[row + i]).count();
                 cones.push(ConeSpec::Nonneg(k)); // possibly 0: an empty cone
             }
